@@ -167,25 +167,28 @@ pub fn %(name)s() {
         # over-capacity counts and truncation
         lay2, _, _ = build_expr(G, mod, 2)
         nb2 = (lay2.off + 7) // 8
+        import props.c02 as c02
         for ci, (off, w, path, c) in enumerate(lay0.counts):
             if (1 << w) - 1 > c:
-                name = "%s_over%d" % (mod, ci)
-                nb = (lay0.off + 7) // 8 + 4
-                code.append("""#[kani::proof]
+                for val in sorted(set([c + 1, (1 << w) - 1])):
+                    name = "%s_over%d_%d" % (mod, ci, val)
+                    nb = (lay0.off + 7) // 8 + c + 8
+                    # this count = val (above capacity), every other count 0; the bytes holding count
+                    # fields are constants so that control flow is concrete (a symbolic count made the
+                    # harness hang on a seeded change that clamps the count instead of rejecting it)
+                    patches = [(o2, w2, val if i2 == ci else 0) for i2, (o2, w2, _, _) in enumerate(lay0.counts)]
+                    code.append("""#[kani::proof]
 #[kani::unwind(%(unw)d)]
 pub fn %(name)s() {
     use rtcm_rs::verif_hooks::codec::%(mod)s as c;
-    let payload: [u8; %(nb)d] = kani::any();
-    // earlier lists empty so that this count field sits at its header-only offset
-    %(zero)s
-    kani::assume(get_bits(&payload, %(off)d, %(w)d) > %(cap)d);
+    let mut payload: [u8; %(nb)d] = kani::any();
+    %(patch)s
     let mut par = Parser::new(&payload, 12);
     assert!(c::decode(&mut par).is_err());
 }
-""" % {"unw": max(12, min(G.max_cap(mod), 64) + 2), "name": name, "mod": mod, "nb": nb, "off": off, "w": w, "cap": c,
-       "zero": "\n    ".join("kani::assume(get_bits(&payload, %d, %d) == 0);" % (o2, w2) for (o2, w2, _, _) in lay0.counts[:ci])})
-                hs.append({"name": "c15gen::%s" % name, "group": "main", "tier": "quick" if q else "thorough",
-                           "bounds": "%s: count field %s (%d bits) holding any value above the capacity %d, arbitrary remaining bytes => Err (Corrupt)" % (mod, path, w, c)})
+""" % {"unw": max(12, min(G.max_cap(mod), 64) + 2), "name": name, "mod": mod, "nb": nb, "patch": c02.concrete_bytes(patches, nb)})
+                    hs.append({"name": "c15gen::%s" % name, "group": "main", "tier": "quick" if (q and val == c + 1) else "thorough",
+                               "bounds": "%s: count field %s (%d bits) = %d > capacity %d, other counts 0, %d-byte payload otherwise symbolic => Err (Corrupt)" % (mod, path, w, val, c, nb)})
         name = "%s_trunc" % mod
         lay2b, build2, _ = build_expr(G, mod, 2)
         code.append("""#[kani::proof]
@@ -220,7 +223,7 @@ pub fn %(name)s() {
         "functions": ["msg::{frag_vec, frag_vec_with_len, msg_len_middle} generated encode/decode for %d list-bearing message types" % len(types), "df_88591_string_with_len encode/decode", "DataVec::{push,len}"],
         "bounds": {"counts": "every n in 0..=capacity (thorough; quick n in {0,1,cap} for %d types), one harness per (type, n) with the real element codec" % len(QUICK),
                    "elements": "default elements with one symbolic integer tag each (order/identity), strings: symbolic non-zero bytes",
-                   "over_capacity": "every count value above capacity where the count width admits it", "truncation": "2 elements per list, every byte cut"},
+                   "over_capacity": "count = capacity+1 and = field maximum for every count field whose width admits values above capacity (concrete count, symbolic rest)", "truncation": "2 elements per list, every byte cut"},
         "outside": ["element contents at full symbolic generality in long lists (C01 covers <= 2 elements, C08 every field)", "truncation points of full-capacity frames",
                     "MSM and 1059/1065/1230/1029 structures (C10, C16, C17)"],
         "assumptions": ["messages with several lists use the same n for all of them, bounded by the smallest capacity"],
